@@ -830,6 +830,14 @@ class CoreMixin:
                         if v.extra is not None:
                             v.extra.setdefault("class_attr", (c.qualname, name))
                         self._classattr_memo[key] = v
+                        # an object with __set_name__ placed in a class body is told its owner and name when the class
+                        # is created
+                        vcls = (v.extra or {}).get("cls") if v.op == "Obj" else None
+                        if vcls is not None and any("__set_name__" in k_.methods for k_ in self.mro(vcls)):
+                            mst = self.module_state(c.module)
+                            hook = self.load_attr(v, "__set_name__", mst, cfr, site)
+                            if hook is not None:
+                                self.call(hook, [self.class_node(c), self.const(name, site)], {}, mst, cfr, site)
                 cv = self._classattr_memo[key]
                 if inst is not None and cv.op == "Obj" and cv.extra and cv.extra.get("cls") is not None:
                     getter = self.find_method(cv.extra["cls"], "__get__")
